@@ -31,6 +31,8 @@ from pyvc import solve                             # noqa: E402
 import propmap                                     # noqa: E402
 
 VENV_PY = "/venv/bin/python"
+# experiments on scratch copies of the repository (tools_harmless.sh) write their evidence / replay files elsewhere
+OUT = os.environ.get("VERIF_SCRATCH_OUT", HERE)
 
 
 def slug(s):
@@ -175,7 +177,7 @@ def main():
     if pm is None:
         print("unknown / unclaimed property", prop)
         return 3
-    evidence_path = os.path.join(HERE, "evidence", "%s.json" % prop)
+    evidence_path = os.path.join(OUT, "evidence", "%s.json" % prop)
     try:
         os.remove(evidence_path)
     except OSError:
@@ -184,6 +186,7 @@ def main():
     known = [k for k in load_known() if prop in props_of(k)]
     known_open = [k for k in known if k.get("status") == "known"]
     violations, undecided, errors, known_lines = [], [], [], []
+    stale_notes = []
     ob_records, functions, assumed_contracts, ghost_assumes = [], [], set(), []
     used_verified = set()
     solver_time = 0.0
@@ -241,6 +244,7 @@ def main():
                 functions.append({"function": r["target"], "paths": r["paths"], "obligations": len(r["obligations"]),
                                   "obligations_all_properties": r["n_all"], "trivially_true": r["trivial"]})
                 ghost_assumes += r["ghost_assumes"]
+                stale_notes += [(r["target"], n) for n in r.get("stale_notes", [])]
                 lemma_todo += [l for l in r["lemmas_used"] if l not in done_lemmas]
                 for o in r["obligations"]:
                     o["function"] = r["target"]
@@ -349,7 +353,7 @@ def main():
                 return k
         return None
 
-    os.makedirs(os.path.join(HERE, "replays", prop), exist_ok=True)
+    os.makedirs(os.path.join(OUT, "replays", prop), exist_ok=True)
     matched_known = {}
 
     # failing real inputs per function (for replay of failed obligations)
@@ -365,6 +369,17 @@ def main():
                 out += [(c["name"], f) for f in c.get("failures", [])]
         return out
 
+    # A sidecar contract that no longer attaches to the code (function renamed / removed, ghost anchor or loop header
+    # gone: SourceError) leaves the ghost state it maintained un-maintained.  A counter-model for another function of
+    # the same file may then be an artefact of the out-of-date sidecar (e.g. a helper inlined by hand: its ghost
+    # update is no longer executed), not of the code: without a failing real input it is reported as undecided.
+    stale = {}
+    for u in undecided:
+        if u.get("function") and str(u.get("reason", "")).startswith("SourceError"):
+            stale.setdefault(u["function"].split("::")[0], []).append("%s: %s" % (u["function"], u["reason"]))
+    for tgt, note in stale_notes:
+        stale.setdefault(tgt.split("::")[0], []).append(note)
+
     n_known_obl = 0
     for rec in ob_records:
         if rec["status"] == "sat":
@@ -376,7 +391,13 @@ def main():
                 continue
             fails = [(n, f) for n, f in rt_failures_for(rec["function"])
                      if known_match("rt", n, f.get("class")) is None]
-            path = os.path.join(HERE, "replays", prop, slug(rec["name"]) + ".json")
+            file_ = (rec["function"] or "").split("::")[0]
+            if not fails and file_ in stale:
+                rec["status"] = "undecided-stale-sidecar"
+                undecided.append({"obligation": rec["name"],
+                                  "reason": "counter-model not reported as a violation: the sidecar contract of another function of %s no longer attaches to the code (%s); no failing real input found" % (file_, "; ".join(stale[file_])[:300])})
+                continue
+            path = os.path.join(OUT, "replays", prop, slug(rec["name"]) + ".json")
             doc = {"property": prop, "failed_obligation": rec["name"], "kind": rec["kind"], "function": rec["function"],
                    "at_statement": rec["at"], "clause": rec["clause"], "solver": rec["solver"],
                    "verifier_counter_model": rec.get("model", "")[:6000],
@@ -408,7 +429,7 @@ def main():
                     matched_known.setdefault(k["id"], []).append("%s[%s]" % (c["name"], cls))
                     continue
                 # already reported through a failed obligation of the same function?
-                path = os.path.join(HERE, "replays", prop, slug("%s.%s" % (c["name"], cls)) + ".json")
+                path = os.path.join(OUT, "replays", prop, slug("%s.%s" % (c["name"], cls)) + ".json")
                 doc = {"property": prop, "failed_bounded_check": c["name"], "function": c.get("function"),
                        "scope": c.get("scope"), "class": cls, "failing_real_inputs": fs[:3],
                        "replayed_on_real_code": True,
